@@ -81,6 +81,14 @@ OPTIONS_AFFECTING_CACHE: Final = (
         "untyped_calls_exclude",
         "enable_incomplete_feature",
         "install_types",
+        # These change which diagnostics are produced, or are already applied to the
+        # rendered diagnostics that are stored in the cache and replayed on a warm run.
+        "many_errors_threshold",
+        "semantic_analysis_only",
+        "show_absolute_path",
+        "show_error_code_links",
+        "show_error_context",
+        "warn_redundant_casts",
     }
 ) - {"debug_cache"}
 
